@@ -530,7 +530,7 @@ pub fn t7(depth: usize, atoms: Vec<E>) -> Corpus {
     Corpus::from_list("T7", list)
 }
 
-fn ends_chain_with_conditional(e: &E) -> bool {
+pub fn ends_chain_with_conditional(e: &E) -> bool {
     let kids: Vec<&E> = match e {
         E::Pre(_, x) | E::Suf(_, x) | E::Group(x) | E::Prop(x, _) | E::Nested(_, x) | E::PrefixApply(_, x) | E::SuffixApply(_, x) => vec![x],
         E::Bin(_, l, r) | E::SideAfter(l, r) | E::SideBefore(l, r) | E::InfixApply(_, l, r) => vec![l, r],
@@ -540,6 +540,8 @@ fn ends_chain_with_conditional(e: &E) -> bool {
                 if matches!(**d, E::Cond(_, None)) {
                     return true;
                 }
+            } else if arms.len() >= 2 {
+                return true;
             }
             let mut k: Vec<&E> = vec![];
             for (_, c, a) in arms {
